@@ -144,6 +144,9 @@ impl Scenario for Lifecycle {
         }
         t.set_p("key_len", key_for(v, rng) as u64);
         t.set_p("key_seed", rng.data_seed());
+        // degenerate keys now and then: all zero (Poly1305: r = 0 and s = 0, the accumulator and the tag stay zero), first
+        // half zero (r = 0), second half zero (s = 0: the tag of the empty message is zero), all ones
+        t.set_p("key_class", if rng.chance(1, 6) { rng.range(1, 4) } else { 0 });
         let misuse = rng.chance(1, 2); // fault-free and fault-injecting configurations are separate
         let max_handles = rng.range(1, 3) as usize;
         let nops = if rng.chance(1, 300) { rng.range(300, 700) } else { rng.range(2, if tier == Tier::Thorough { 40 } else { 20 }) };
@@ -263,7 +266,17 @@ impl Scenario for Lifecycle {
             Class::BlakeMac(_) => (t.p("key_len") as usize).min(v.max_key),
             Class::Hmac => (t.p("key_len") as usize).min(1024),
         };
-        let key0 = data(t.p("key_seed"), klen);
+        let mut key0 = data(t.p("key_seed"), klen);
+        match t.p("key_class") {
+            1 => key0.iter_mut().for_each(|x| *x = 0),
+            2 => key0.iter_mut().take(klen / 2).for_each(|x| *x = 0),
+            3 => key0.iter_mut().skip(klen / 2).for_each(|x| *x = 0),
+            4 => key0.iter_mut().for_each(|x| *x = 0xff),
+            _ => {}
+        }
+        if t.p("key_class") != 0 && klen > 0 {
+            obs.hit("fault.degenerate_key");
+        }
         let name = v.name.as_str();
         let first = guarded(|| fresh(v, outlen, &key0)).map_err(|m| Violation::new("unexpected-panic", 0, "object constructed", m, name))?;
         let mut hs: Vec<Option<Handle>> = vec![Some(Handle { obj: first, key: key0, log: Vec::new(), done: None, resets: 0, refused: false })];
